@@ -7,6 +7,12 @@ CLAIMS = {
  "C01": ("CFG path enumeration with an event automaton (emit/seek/reset/flush/commit) over GPFile.writeBlock; packed-layout table extraction",
          "Decides structural necessary conditions of the property on every control-flow path of the write/commit code: offset accounting, rollback before re-encoding, flush before commit, recorded length/encoder = emitting call. Not the byte-level round trip itself (compression libraries are trusted).",
          "go/types + go/cfg; semantics of bufio.Writer (Reset discards only buffered bytes), io.Seeker; frozen anchor table in checker/props"),
+ "C02": ("per-path event automaton over Compress/Decompress of every Encoder implementation, run once per build configuration (cgo, CGO_ENABLED=0; thorough: noliblz4, nolibzstd, CI tags)",
+         "Decides the sibling contract all four build-tag-selected implementations must share so that what reaches the file is exactly the library's frame (scratch hygiene for append-style APIs, capacity-guarded reslice, one Write whose count is reported, short-read check, decoded length returned, no &x[0] on a possibly empty parameter). Mutual readability of the third-party frame formats is NOT decided.",
+         "go/packages under each build configuration (cgo files through the cgo-processed sources); table of append-style third-party functions (klauspost zstd EncodeAll/DecodeAll)"),
+ "C07": ("same encoder-contract automaton per implementation and configuration, plus the encoder.New type table (each constant -> implementation whose Type() returns it; default rejects)",
+         "Decides count-reported = count-written, written bytes = library output only, read-length check, decoded-length return, for every implementation and configuration. The byte-level round trip for all inputs and levels is library behaviour and NOT decided.",
+         "as C02"),
  "C03": ("narrowing-conversion guard dominance (CFG), decoder size-guard derivation from the extracted layout, writer/reader layout table comparison",
          "Decides that every narrowing conversion stored by GPDir.Marshal is guarded on every side its source type can exceed, that Unmarshal's size guards use constants covering what the decoder consumes (derived from the code) and dominate all accesses, that the duplicate-timestamp test dominates AddBlock, and that Open propagates decode errors. Equality of re-read histories as values is not decided.",
          "go/types + go/cfg; frozen anchors GPDir.Marshal/Unmarshal/Open, GPFile.writeBlock"),
